@@ -97,18 +97,147 @@ func smallLimit(r *Rand) int {
 	return r.PickInt(64, 256, 1000, 4096, 5000, 65536)
 }
 
+// genC05Cancel: one simple query of 2-5 plain statements; one of them cancels
+// the session context (before or after its own completion).
+func genC05Cancel(r *Rand) *Case {
+	c := &Case{Variant: "session-cancelled-mid-query", Server: ServerCfg{Limit: 4096, MW: []MWSpec{{Cancel: true}}}, Programs: map[string]*Program{}}
+	n := r.Range(2, 5)
+	at := r.Intn(n)
+	var stmts []*StmtProg
+	for i := 0; i < n; i++ {
+		sp := &StmtProg{Cols: []ColSpec{{Name: "a", OID: pgwire.OIDText}}}
+		if i == at && r.Bool() {
+			sp.Ops = append(sp.Ops, Op{K: "cancel"})
+		}
+		for k := r.Intn(3); k > 0; k-- {
+			sp.Ops = append(sp.Ops, Op{K: "row", Row: []Val{{G: "string", S: fmt.Sprintf("s%d", i)}}})
+		}
+		sp.Ops = append(sp.Ops, Op{K: "complete", Tag: fmt.Sprintf("TAG %d", i)})
+		if i == at && len(sp.Ops) > 0 && sp.Ops[0].K != "cancel" {
+			sp.Ops = append(sp.Ops, Op{K: "cancel"})
+		}
+		stmts = append(stmts, sp)
+	}
+	c.Programs["multi"] = &Program{Stmts: stmts}
+	c.Programs["after"] = &Program{Stmts: []*StmtProg{{Cols: []ColSpec{{Name: "a", OID: pgwire.OIDText}}, Ops: []Op{{K: "complete", Tag: "AFTER"}}}}}
+	msgs := []pgwire.FMsg{{K: "Q", S1: "multi"}}
+	if r.Bool() {
+		msgs = append(msgs, pgwire.FMsg{K: "Q", S1: "after"})
+	}
+	c.Expect = map[string]any{"statements": n}
+	c.Conns = []ConnCase{{Steps: []Step{{Msgs: []pgwire.FMsg{startupMsg("u", "d")}}, {Msgs: msgs}}, Cuts: genCuts(r)}}
+	return c
+}
+
+// checkC05Cancel: whatever an implementation does once the session context is
+// cancelled, the cycle of the running query is either complete (every
+// statement's CommandComplete, in order) or a prefix of complete results
+// followed by exactly one ErrorResponse - and exactly one ReadyForQuery.
+func checkC05Cancel(x *Exec, c *Case) ([]Violation, bool) {
+	r := x.Run(c)
+	cs := r.Conns[0]
+	t := ParseOut(cs)
+	viol := GrammarViolation("C05", 0, t)
+	n := 0
+	if p := c.Programs["multi"]; p != nil {
+		n = len(p.Stmts)
+		for _, sp := range p.Stmts {
+			// (a shrunk case may leave the domain of this oracle: every statement
+			// consists of rows and exactly one final completion)
+			done := 0
+			for _, op := range sp.Ops {
+				switch op.K {
+				case "complete":
+					done++
+				case "row", "cancel":
+				default:
+					return viol, false
+				}
+			}
+			if done != 1 {
+				return viol, false
+			}
+		}
+	}
+	if n == 0 {
+		return viol, false
+	}
+	add := func(rule, detail string) {
+		viol = append(viol, Violation{Prop: "C05", Rule: rule, Sig: rule, Detail: "conn 0: " + detail + fmt.Sprintf(" (server output %q)", pgwire.Kinds(t.Msgs))})
+	}
+	// the cycle of the first query: everything after the startup's ReadyForQuery up to the next one
+	i := 0
+	for i < len(t.Msgs) && t.Msgs[i].Type != 'Z' {
+		i++
+	}
+	if i == len(t.Msgs) {
+		return viol, false // no session (judged elsewhere)
+	}
+	var tags []string
+	errs, ready := 0, false
+	for _, m := range t.Msgs[i+1:] {
+		if m.Type == 'Z' {
+			ready = true
+			break
+		}
+		switch m.Type {
+		case 'C':
+			if errs > 0 {
+				add("result-after-error", "a CommandComplete follows the ErrorResponse of the same query")
+			}
+			tags = append(tags, m.Tag)
+		case 'E':
+			errs++
+		}
+	}
+	if !ready {
+		if cs.Closed > 0 && errs <= 1 {
+			return viol, true // the implementation ended the connection: not this rule's business
+		}
+		add("no-ready-for-query", "the query cycle does not end with ReadyForQuery")
+		return viol, true
+	}
+	for k, tg := range tags {
+		if tg != fmt.Sprintf("TAG %d", k) {
+			add("results-out-of-order", fmt.Sprintf("CommandComplete #%d carries tag %q", k, tg))
+		}
+	}
+	if errs > 1 {
+		add("several-errors", fmt.Sprintf("%d ErrorResponses in one query cycle", errs))
+	}
+	if len(tags) < n && errs == 0 {
+		add("statements-skipped-silently", fmt.Sprintf("only %d of %d statements were answered and no ErrorResponse says why", len(tags), n))
+	}
+	ran := 0
+	for _, e := range cs.EventsOf("stmt") {
+		if strings.HasPrefix(e.S, "multi#") {
+			ran++
+		}
+	}
+	if errs == 1 && ran > len(tags)+1 {
+		add("statement-ran-after-error", fmt.Sprintf("%d statements ran although the cycle reported an error after %d results", ran, len(tags)))
+	}
+	return viol, ran > 0
+}
+
 func init() {
 	// ------------------------------------------------------------------ C05
 	register(&Prop{
 		ID: "C05", Level: "exploration", QuickS: 25, ThoroughS: 420,
-		Rule:       "seeded simple-query histories (1-6 Query messages, pipelined / one per quiescence point / grouped, random segmentation) whose query texts map to generated handler programs (parser error, 0/1/many statements, 0-4 typed columns, good / wrong-arity / unencodable rows, Written() reads, Complete, calls after completion, error return at any position); non-trivial = at least one result-writer operation was executed and judged; distinct = distinct case content hashes",
+		Rule:       "seeded simple-query histories (1-6 Query messages, pipelined / one per quiescence point / grouped, random segmentation) whose query texts map to generated handler programs (parser error, 0/1/many statements, 0-4 typed columns, good / wrong-arity / unencodable rows, Written() reads, Complete, calls after completion, error return at any position); a share of cases cancels the session context (derived by a session middleware, as a session time limit would) while one statement of a multi-statement query runs: the cycle must still be all results in order or results of a prefix plus exactly one ErrorResponse, never a silently shortened result; non-trivial = at least one result-writer operation was executed and judged; distinct = distinct case content hashes",
 		Components: e1Components, Assumptions: commonAssumptions,
 		Gen: func(r *Rand, tier string) *Case {
+			if r.Chance(1, 25) {
+				return genC05Cancel(r)
+			}
 			c := &Case{Server: ServerCfg{Limit: smallLimit(r)}}
-			genHistory(r, c, histOpts{simple: true, errs: true, abuse: true, multi: true, typedNull: false, rich: true, maxUnits: units(tier, 6), terminate: true})
+			genHistory(r, c, histOpts{manyRows: true, simple: true, errs: true, abuse: true, multi: true, typedNull: false, rich: true, maxUnits: units(tier, 6), terminate: true})
 			return c
 		},
 		Check: func(x *Exec, c *Case) ([]Violation, bool) {
+			if c.Variant == "session-cancelled-mid-query" {
+				return checkC05Cancel(x, c)
+			}
 			viol, r, mrs := modelCheck("C05", x, c)
 			nt := false
 			for i, cs := range r.Conns {
@@ -126,7 +255,7 @@ func init() {
 		Components: e1Components, Assumptions: commonAssumptions,
 		Gen: func(r *Rand, tier string) *Case {
 			c := &Case{Server: ServerCfg{Limit: smallLimit(r)}}
-			genHistory(r, c, histOpts{simple: true, extended: true, errs: true, abuse: r.Chance(1, 3), unknown: true, oversized: true, unknownNames: true, closes: true, stray: true, params: true, maxUnits: units(tier, 8), terminate: true})
+			genHistory(r, c, histOpts{manyRows: true, simple: true, extended: true, errs: true, abuse: r.Chance(1, 3), unknown: true, oversized: true, unknownNames: true, closes: true, stray: true, params: true, maxUnits: units(tier, 8), terminate: true})
 			return c
 		},
 		Check: func(x *Exec, c *Case) ([]Violation, bool) {
@@ -149,7 +278,7 @@ func init() {
 		Components: e1Components, Assumptions: commonAssumptions,
 		Gen: func(r *Rand, tier string) *Case {
 			c := &Case{Server: ServerCfg{Limit: smallLimit(r)}}
-			genHistory(r, c, histOpts{simple: true, copy: true, extended: r.Bool(), errs: true, stray: true, maxUnits: units(tier, 5)})
+			genHistory(r, c, histOpts{copyForeign: true, simple: true, copy: true, extended: r.Bool(), errs: true, stray: true, maxUnits: units(tier, 5)})
 			return c
 		},
 		Check: func(x *Exec, c *Case) ([]Violation, bool) {
@@ -215,7 +344,7 @@ func init() {
 			}
 			c := &Case{Server: ServerCfg{Limit: smallLimit(r)}}
 			r.Large = true
-			genHistory(r, c, histOpts{simple: true, extended: true, binary: true, rich: true, typedNull: true, multi: true, abuse: r.Chance(1, 3), maxUnits: units(tier, 6)})
+			genHistory(r, c, histOpts{manyRows: true, simple: true, extended: true, binary: true, rich: true, typedNull: true, multi: true, abuse: r.Chance(1, 3), maxUnits: units(tier, 6)})
 			return c
 		},
 		Check: func(x *Exec, c *Case) ([]Violation, bool) {
